@@ -314,6 +314,9 @@ func genC07(r *plan.Rng, tier string) *plan.Plan {
 			break
 		}
 	}
+	if r.Fork(11).Chance(1, 5) {
+		cs.Wrap = true
+	}
 	p.Ctxs = []plan.CtxSpec{cs}
 	note(p, "ctx", cs.Kind)
 
